@@ -87,7 +87,7 @@ func init() {
 		Level: "exploration",
 		Rule: "engine P: float32 bit patterns (quick: class-complete set = every sign x exponent x 21 boundary mantissas, every multiple of 1/64 and 1/128 in [-128,128], every u/15120, k/120, integer <=16386, powers of two, each with +-1 ulp neighbours; thorough: all 2^32) " +
 			"through every public route that writes a number (SetLOD real, path coordinates at high and low resolution, arc rotation angle, SetNReg shortest-of-three, viewBox) and directly through the five unexported encoders (generated overlay); " +
-			"each encoded form is measured and decoded by the reference codec and by the real decoder, then re-encoded (idempotence). Naturals: boundary classes (thorough: all 2^30). Decoder side: all 128 one-byte, 16384 two-byte and 32768 strided four-byte patterns of each kind as instruction operands and as the four numbers of a viewBox chunk, every truncation of both. Metadata naturals: every palette length 1..64 x colour width 1..4 x {default, custom viewBox} (chunk lengths 3..258 cross the 1-byte/2-byte natural boundary). " +
+			"each encoded form is measured and decoded by the reference codec and by the real decoder, then re-encoded (idempotence). Naturals: boundary classes (thorough: all 2^30). Decoder side: all 128 one-byte, 16384 two-byte and 32768 strided four-byte patterns of each kind as instruction operands, as arc flags and as the four numbers of a viewBox chunk, every truncation of both. Metadata naturals: every palette length 1..64 x colour width 1..4 x {default, custom viewBox} (chunk lengths 3..258 cross the 1-byte/2-byte natural boundary). " +
 			"distinct = hash of (route, form length, exactness class); non-trivial = value not exactly representable in a short form (4-byte form with rounding)",
 		Assumptions: []string{"linux/amd64 float-to-integer conversion semantics", "ulp distances measured on float32 bit patterns"},
 		Units: func(tier string) int {
@@ -689,6 +689,29 @@ func (st *c08State) decoderOne(pre, form []byte, hexIn string) {
 		h.Byte(t.kind)
 		h.Byte(byte(len(form)))
 		w.Outcome(h.Sum(), len(form) == 4)
+	}
+	// the same form as the flags of an arc: read as a natural (bit 0 large-arc, bit 1 sweep)
+	{
+		w.EvalN(1)
+		b := append(append([]byte{}, pre...), 0xc0, 0x80, 0x80, 0xc0, 0x84, 0x86, 0x0a)
+		b = append(b, form...)
+		b = append(b, 0x88, 0x8a, 0xe1)
+		u, _ := ref.Natural(form)
+		st.rd.ResetLog()
+		err, pnc, _ := safeDecode(&st.rd, b)
+		cs := c08Case{Route: "decoder", Hex: fmt.Sprintf("%x", form)}
+		if err != nil || pnc != nil || len(st.rd.Calls) != 4 || st.rd.Calls[2].M != rec.MAbsA {
+			w.Fail("decoder:arc-flags", fmt.Sprintf("stream %x (arc flags natural %x): err=%v panic=%v calls=%d", b, form, err, pnc, len(st.rd.Calls)), cs)
+		} else if c := &st.rd.Calls[2]; c.LA != (u&1 != 0) || c.SW != (u&2 != 0) {
+			w.Fail("decoder:arc-flags", fmt.Sprintf("arc flags natural %x = %d: delivered large-arc %v sweep %v", form, u, c.LA, c.SW), cs)
+		}
+		for n := len(pre) + 8; n < len(pre)+7+len(form); n++ {
+			if err, pnc, _ := safeDecode(&st.rd, b[:n]); pnc != nil {
+				w.Fail("decoder:arc-flags", fmt.Sprintf("stream %x cut to %d bytes: panic %v", b, n, pnc), cs)
+			} else if _, ok := err.(decode.DecodeError); !ok {
+				w.Fail("decoder:truncation-accepted", fmt.Sprintf("stream %x cut to %d bytes (inside the arc flags): err=%v", b, n, err), cs)
+			}
+		}
 	}
 	// the same form as the four numbers of a viewBox chunk: read as coordinates, and every
 	// cut of the metadata is a decoding error (never a read past the end)
